@@ -34,4 +34,9 @@ pub trait Prop: Sync {
     fn assumptions(&self) -> Vec<String> {
         Vec::new()
     }
+    /// Run the workers of this (tier, profile) with the page-guard allocator (every heap block
+    /// ends at an inaccessible page: over-reads fault). Slower; default off.
+    fn page_guard(&self, _tier: Tier, _profile: Profile) -> bool {
+        false
+    }
 }
